@@ -422,7 +422,7 @@ class C19(Prop):
                  'ast.iter_child_nodes enumerates exactly the children generic_visit descends into']
 
   def generate(self, rng, tier):
-    n = 700 if tier == 'quick' else 20000
+    n = 700 if tier == 'quick' else 60000
     pg = ProgGen(rng)
     for i in range(n):
       if rng.chance(0.04):
@@ -468,6 +468,11 @@ class C19(Prop):
       yield {'op': 'run', 'code': code, 'explicit': None, 'scopes': [list(FLAGS)], 'tree': tree}
     for code in singles:
       tree = tree_of(ast.parse(code))
+      if tier == 'thorough':      # all 256 permission subsets, as explicit argument and as scope
+        for mask in range(256):
+          sub = [f for i, f in enumerate(FLAGS) if mask >> i & 1]
+          yield {'op': 'run', 'code': code, 'explicit': sub, 'scopes': [], 'tree': tree}
+          yield {'op': 'run', 'code': code, 'explicit': None, 'scopes': [sub], 'tree': tree}
       for drop in FLAGS:
         yield {'op': 'run', 'code': code, 'explicit': [f for f in FLAGS if f != drop], 'scopes': [], 'tree': tree}
       yield {'op': 'run', 'code': code, 'explicit': [], 'scopes': [], 'tree': tree}
